@@ -52,7 +52,9 @@ static void make_backlog(void) {
 }
 static void start_std(int variant) {
 	int lc1_absent = variant & 1, populated = (variant >> 1) & 1, congested = (variant >> 2) & 1; g_backlog = (variant >> 3) & 1;
-	cm_std(&M); if (lc1_absent) M.b[2].present = 0; cm_install(&M);
+	cm_std(&M); if (lc1_absent) M.b[2].present = 0;
+	{ cm_board_t *b = &M.b[1]; b->nrev = 1; snprintf(b->rev[0].id, 24, "rev2"); snprintf(b->rev[0].cv, 12, "30052"); }      /* a reverser on a board that can leave the bus */
+	cm_install(&M);
 	if (hx_start_normal(0)) res_infra("normal start failed");
 	hx_quiesce();
 	if (populated) populate();
@@ -171,7 +173,8 @@ static void pair_child(const void *job, size_t n) {
 	start_std(state_variant); vs_sleep_us(2500000); hx_quiesce();
 	int tids[3]; int nt = 0;
 	for (int i = 0; i < pair_n; i++) if (pair_e[i] >= N_HL + N_LL) { /* receiver entries: queue the message, the receiver thread is the actor */
-			int k = pair_e[i] - N_HL - N_LL; uint8_t d[16]; int dl; uplink_payload((uint8_t) (0x80 + k % 128), d, &dl); uint8_t m[40], f[90]; int ml = rc_build_msg(m, SB.n[k / 128 == 1 ? 1 : 0].addr, 0, (uint8_t) (0x80 + k % 128), d, dl); env_push_quiet(f, rc_frame(f, m, (size_t) ml, 1)); }
+			int k = pair_e[i] - N_HL - N_LL; uint8_t d[16]; int dl; uint8_t ty = (uint8_t) (0x80 + k % 128); if (k >= 128 * 3) ty = special_payload(k - 128 * 3, d, &dl); else uplink_payload(ty, d, &dl);
+			uint8_t m[40], f[90]; int ml = rc_build_msg(m, SB.n[k / 128 == 1 ? 1 : 0].addr, 0, ty, d, dl); env_push_quiet(f, rc_frame(f, m, (size_t) ml, 1)); }
 	vs_window(1);
 	for (int i = 0; i < pair_n; i++) if (pair_e[i] < N_HL + N_LL) tids[nt++] = vs_spawn(pair_thread, (void *) (intptr_t) i);
 	for (int i = 0; i < nt; i++) vs_join_tid(tids[i]);
